@@ -209,7 +209,7 @@ isal_deflate_body_ %+ ARCH %+ :
 	add	f_end_i, f_i
 
 	mov	qword [rsp + inbuf_slop_offset], MIN_INBUF_PADDING
-	cmp	byte [stream + _end_of_stream], 0
+	cmp	word [stream + _end_of_stream], 0
 	jnz	.default_inbuf_padding
 	cmp	byte [stream + _flush], 0
 	jnz	.default_inbuf_padding
